@@ -226,6 +226,9 @@ pub const SUSPEND: Profile = Profile {
 };
 
 pub struct Gen<'a> {
+    /// pool 0 with one context: a future that has been polled is awaited to completion
+    /// (nothing else could ever run the queue its poll has claimed)
+    pub no_abandon: bool,
     pub rng: &'a mut Rng,
     next_id: u32,
     pub n_gates: usize,
@@ -244,7 +247,7 @@ enum HK {
 
 impl<'a> Gen<'a> {
     pub fn new(rng: &'a mut Rng, n_objs: usize) -> Gen<'a> {
-        Gen { rng, next_id: 0, n_gates: 0, n_handles: 0, n_objs }
+        Gen { no_abandon: false, rng, next_id: 0, n_gates: 0, n_handles: 0, n_objs }
     }
     pub fn id(&mut self) -> u32 {
         let i = self.next_id;
@@ -335,12 +338,19 @@ impl<'a> Gen<'a> {
                 out.push(op);
             }
             HK::Suspend => {
-                let c = self.rng.weighted(&[6, 2, 1]);
+                let c = if self.no_abandon { 0 } else { self.rng.weighted(&[6, 2, 1]) };
                 match c {
                     0 => {
                         held[idx].1 = HK::Resumer;
                         let op = self.op(OpKind::Await { h });
                         out.push(op);
+                        if self.no_abandon {
+                            // no pool thread: the context that suspended the queue resumes it before it waits for anything else
+                            held.remove(idx);
+                            let kk = if self.rng.permille(700) { OpKind::Resume { h } } else { OpKind::DropResumer { h } };
+                            let op = self.op(kk);
+                            out.push(op);
+                        }
                     }
                     1 => {
                         let op = self.op(OpKind::PollOnce { h });
@@ -360,6 +370,9 @@ impl<'a> Gen<'a> {
                 }
                 if k == HK::FutureSync {
                     wts[3] = 0;
+                }
+                if self.no_abandon {
+                    wts[1] = 0;
                 }
                 let c = self.rng.weighted(&wts);
                 let kk = match c {
@@ -542,6 +555,7 @@ pub fn gen_general(rng: &mut Rng, p: &Profile) -> Program {
     let faults = gen_faults(rng, p.faults);
     let prespawn = pool_max > 0 && rng.permille(p.prespawn_permille);
     let mut g = Gen::new(rng, n_objs);
+    g.no_abandon = pool_max == 0 && !sync_only;
     let mut threads = vec![];
     for _ in 0..n_threads {
         let n_ops = g.rng.range(p.ops.0, p.ops.1) as usize;
